@@ -407,6 +407,10 @@ class CallListerVisitor(ast.NodeVisitor):
                 # can do anything to its value, whenever it runs
                 outer.tainted = node
                 self.late_tainted.append(outer)
+            elif isinstance(node.ctx, ast.Load) and node.id not in self.namespace:
+                # a global or a builtin: nothing that reads it can rebind it,
+                # and it is not one of the containers being forwarded
+                pass
             else:
                 self.namespace[node.id] = Unknown(node)
 
